@@ -15,6 +15,7 @@ type buildViolation struct{ prop, what string }
 func (b *buildViolation) Error() string { return b.what }
 
 type l2Prog struct {
+	noSym  bool   // skip the solver-chosen job order (programs with many jobs: measured too slow)
 	src    string // corpus source file (without .go) holding the directive
 	entry  string
 	name   string
@@ -26,13 +27,14 @@ type l2Prog struct {
 func l2Plan(prop, tier string) []l2Prog {
 	var ps []l2Prog
 	srcOf := map[string]string{"f02": "f01", "f10": "f06", "f11": "f07", "f08n": "f04", "f01": "f01", "f03": "f02", "f04": "f02", "f05": "f02", "f06": "f05", "f07": "f05", "f08": "f04",
-		"p01": "f03", "p02": "f03", "p03": "f03", "p04": "f03", "p05": "f04", "p06": "f05", "p07": "f09"}
+		"p01": "f03", "p02": "f03", "p03": "f03", "p04": "f03", "p05": "f04", "p06": "f05", "p07": "f09", "p08": "f08", "p09": "f08"}
 	add := func(entry, name string, as, cs map[int]string) {
 		key := strings.TrimPrefix(entry, "verifHarness_")
 		if i := strings.Index(key, "_"); i > 0 {
 			key = key[:i]
 		}
-		ps = append(ps, l2Prog{src: srcOf[key], entry: entry, name: name, assert: as, cover: cs})
+		ps = append(ps, l2Prog{src: srcOf[key], entry: entry, name: name, assert: as, cover: cs,
+			noSym: key == "p02" || key == "p03" || key == "p07" || key == "p04"})
 	}
 	f01ok := func() {
 		add("verifHarness_f01_ok", "Flow01 (3 tasks, fan-in, listed out of order), all tasks succeed",
@@ -78,6 +80,16 @@ func l2Plan(prop, tier string) []l2Prog {
 		add("verifHarness_p07", "Par07: Slice without index parameter + SliceEnd (context), symbolic length 0..3",
 			map[int]string{1: "nil iff no element failed", 2: "element function once per element", 3: "End hook exactly once", 4: "End hook after every element call", 5: "End hook never after a failed/panicked element"},
 			map[int]string{1: "three elements, no failure", 2: "an element panicked"})
+	}
+	p08 := func() {
+		add("verifHarness_p08", "Par08: Map(k, v) + MapEnd, symbolic map of 0..2 entries (incl. nil), solver-chosen iteration order",
+			map[int]string{1: "nil iff no entry failed and the End hook succeeded", 2: "map function once per entry", 3: "End hook exactly once", 4: "every (k, m[k]) seen exactly once", 5: "End hook after every entry call", 6: "End hook never after a failed entry", 7: "no extra calls"},
+			map[int]string{1: "two entries, no failure", 2: "empty/nil map", 3: "two entries, one failure"})
+	}
+	p09 := func() {
+		add("verifHarness_p09", "Par09: Map with context under ContinueOnError(b) + Task, symbolic map of 0..2 entries",
+			map[int]string{1: "nil iff no entry failed", 2: "every entry processed (no failure, or continue)", 3: "the Task runs", 4: "every (k, m[k]) exactly once"},
+			map[int]string{1: "two entries", 2: "two failures under continue"})
 	}
 	p03 := func() {
 		add("verifHarness_p03", "Par03: Slice without index + Slice with context + Task, symbolic lengths 0..3",
@@ -167,6 +179,7 @@ func l2Plan(prop, tier string) []l2Prog {
 		p01()
 		p02()
 		p04()
+		p08()
 	case "C07":
 		f01fail()
 		p01()
@@ -178,6 +191,8 @@ func l2Plan(prop, tier string) []l2Prog {
 		p02()
 		p03()
 		p07()
+		p08()
+		p09()
 	case "C11":
 		f03()
 		f04()
